@@ -41,7 +41,8 @@ def _cdop(I, h):
         return "(DPause %s %s)" % (cnat(h["c"]), cZ(h["b"]))
     if h["o"] == "resume":
         return "(DResume %s %s)" % (cnat(h["c"]), cZ(h["b"]))
-    return "(DO %s %s %s %s)" % (cnat(h["c"]), _cop(I, h), cZ(h["b"]), copt(h.get("d"), cZ, "Z"))
+    return "(%s %s %s %s %s)" % ("DCut" if h.get("x") else "DO", cnat(h["c"]), _cop(I, h), cZ(h["b"]),
+                                 copt(h.get("d"), cZ, "Z"))
 
 
 def _cmsg(I, m):
@@ -96,7 +97,8 @@ class C07(Prop):
                  "g_subs_unsubscribe_calls", "g_subs_unsuball_calls", "g_subs_publish_calls", "g_safemap_locks",
                  "RouterHandler", "subscribers.", "safeMap", "trySendCtx", "SendIfMatch")
     rule = ("60% deterministic scripts (2..5 connections on one RouterHandler, buflen 1..3, 8..31 client operations "
-            "REQ/EVENT/CLOSE/COUNT/disconnect/pause-reader/resume-reader executed one at a time, subscription ids "
+            "REQ/EVENT/CLOSE/COUNT/disconnect/pause-reader/resume-reader executed one at a time, about 7% of them "
+            "followed by an immediate disconnect without waiting for the reply, subscription ids "
             "from {a,b,c} shared by all connections, filters from the C02 universe incl. match-all and limits, every "
             "publication with its own id), 40% concurrent histories (2..8 connections, buflen 1..4, each client "
             "issuing 4..17 operations at its own pace, readers fast / jittery / bursty / stalled); every case ends "
@@ -114,7 +116,11 @@ class C07(Prop):
     ]
     assumptions = [
         "events have no empty tag (admission gate, C11); otherwise Match panics inside Publish",
-        "a disconnect is modelled only for an idle connection (no operation of its own in progress)",
+        "a disconnect while an operation is in flight is modelled as a cancellation of the session's context: the "
+        "operation's registry work is completed (router.recv is not interruptible), its reply is handed over or given "
+        "up, then ServeNostr returns; the forwarder goroutine stops when ServeNostr returns (in the code it may hand "
+        "over what is still queued a little longer, if the client keeps reading); the client sends nothing after its "
+        "disconnect",
         "Go's writer preference of RWMutex is not modelled (it only removes schedules)",
         "a reply that does not arrive within 10 s, or a flush that does not get through within 40 rounds and 3 s, is recorded as missing",
     ]
@@ -207,7 +213,8 @@ class C07(Prop):
 
     def distribution(self, cases):
         d = {"det": 0, "conc": 0, "crash": 0, "operations": 0, "live_deliveries": 0, "cross_connection_deliveries": 0,
-             "pauses": 0, "disconnects": 0, "closes": 0, "re_reqs_of_an_open_id": 0, "same_sub_id_on_two_connections": 0,
+             "pauses": 0, "disconnects": 0, "disconnects_in_flight": 0, "replies_given_up": 0, "closes": 0,
+             "re_reqs_of_an_open_id": 0, "same_sub_id_on_two_connections": 0,
              "stalled_or_slow_readers": 0, "flush_publications": 0, "stuck": 0}
         for c in cases:
             d[c["k"]] = d.get(c["k"], 0) + 1
@@ -221,6 +228,10 @@ class C07(Prop):
             for h in c.get("hops") or []:
                 d["operations"] += 1
                 o = h["o"]
+                if h.get("x"):
+                    d["disconnects_in_flight"] += 1
+                    if o != "close" and h.get("d") is None:
+                        d["replies_given_up"] += 1
                 if o == "pause":
                     d["pauses"] += 1
                 elif o == "disc":
